@@ -23,6 +23,7 @@ RULE = (
     "Non-trivial: the encoding contains >= 1 split run and >= 1 literal and >= 1 group, or a boundary-crossing / maximal run "
     "(per-format counters reported in classes); distinct by sha1 of the spec"
 )
+RULE += ' The CM3 reference encoder draws policies (always copy from the left / from above, literal-heavy), so that solid lines get an empty second mask.'
 ASSUMPTIONS = [
     "format grammars as stated in DESIGN.md appendix E",
     "per-decision encoder choices come from random.Random(seed), the seed and the policy are drawn by Hypothesis",
